@@ -58,6 +58,13 @@ func c09Universe() []univ.Val {
 	add("l_12f", univ.L(ref.Float(1), ref.Float(2)), []float64{1, 2})
 	add("l_nest2", univ.L(univ.L(ref.Int(1)), univ.L(ref.Int(2))), [][]int{{1}, {2}})
 	add("l_s_ab", univ.L("a", "b"), []string{"a", "b"})
+	// maps whose keys are bound to nil / empty values (contains tests the key, not the value)
+	add("m_nilval", ref.NewMap("a", nil, "b", ref.Int(1)), map[string]any{"a": nil, "b": 1})
+	add("m_falseval", ref.NewMap("a", false, "1", ""), map[string]any{"a": false, "1": ""})
+	add("m_nilptr", ref.NewMap("a", nil), map[string]*int{"a": nil})
+	add("l_with_nil_first", univ.L(nil, "a"), []any{nil, "a"})
+	add("l_nil_typed", univ.L(), []string(nil))
+	add("m_nil", ref.NewMap(), map[string]any(nil))
 	// Drops behave as their ToLiquid value
 	add("drop_1", ref.Int(1), univ.Drop{V: 1})
 	add("drop_1_5", ref.Float(1.5), univ.Drop{V: 1.5})
